@@ -57,3 +57,97 @@ PROPS = {
         assumptions=['times on the dyadic grid k/16 (exact float arithmetic)'],
     ),
 }
+
+
+def tags(*names):
+    return {n: None for n in names}
+
+
+BASE = ('ev', 'now', 'res', 'ran', 'runbegin')
+
+
+def has(prefixes):
+    def f(st, s):
+        return any(l.startswith(prefixes) for l in st)
+    return f
+
+
+def op_stats(scens, streams):
+    ops = {}
+    for s in scens:
+        for l in s:
+            k = l[0] if l[0] not in ('script', 'ext') else l[0] + ':' + l[2 if l[0] == 'script' else 1]
+            ops[k] = ops.get(k, 0) + 1
+    res = {}
+    for st in streams:
+        for l in st:
+            if l.startswith('res '):
+                k = ' '.join(l.split()[:3]) if l.startswith('res err') else ' '.join(l.split()[:2])
+                res[k] = res.get(k, 0) + 1
+    return {'ops': ops, 'results': res, 'executed_events': sum(1 for st in streams for l in st if l.startswith('ev '))}
+
+
+PROPS['C09'] = dict(
+    modules=['SimProc.Props.C09'], prop_files=['SimProc/Props/C09.lean'],
+    families=[('rm', 400, 8000)],
+    tags=tags(*BASE, 'r', 'h', 'hsum', 'rec'),
+    monitors=M.MONITORS['C09'],
+    nontrivial=has(('res err', 'res ret none')),
+    stats=op_stats, divergence_is_witness=True,
+    divergence_text='C09 fixes pools, holdings and results of every operation; the model is proved to meet it',
+    rule='family rm: random add/reserve/release/merge/register sequences (zero, negative, unknown entries; before and '
+         'after initialisation; callbacks that reserve/release/register); non-trivial = a scenario with at least one '
+         'refused or failing operation; distinct by scenario text',
+    assumptions=['request dictionaries have distinct keys; merge is given two distinct reservations',
+                 'amounts are integers (no float rounding)'],
+)
+PROPS['C10'] = dict(
+    modules=['SimProc.Props.C10', 'SimProc.Props.Facts'], prop_files=['SimProc/Props/C10.lean'],
+    families=[('rm', 400, 8000)],
+    tags=tags(*BASE, 'wq', 'r'),
+    monitors=M.MONITORS['C10'],
+    nontrivial=has(('res cb',)),
+    stats=op_stats, divergence_is_witness=True,
+    divergence_text='C10 fixes which callbacks run, when and in which order; the model is proved to meet it',
+    rule='family rm; non-trivial = at least one waiting request was called back; distinct by scenario text',
+    assumptions=['callbacks act on the manager through its API only'],
+)
+PROPS['C12'] = dict(
+    modules=['SimProc.Props.C12'], prop_files=['SimProc/Props/C12.lean'],
+    families=[('maint', 300, 6000)],
+    tags=tags(*BASE, 'm', 'rec'),
+    monitors=M.MONITORS['C12'],
+    nontrivial=has(('rec start_work_order',)),
+    stats=op_stats, divergence_is_witness=True,
+    divergence_text='C12 fixes acceptance, start order, durations, hooks and costs; the model is proved to meet the '
+                    'bookkeeping part and mirrors the event glue',
+    rule='family maint: random request streams over fake Maintainable targets (duplicates, bursts, needed 0 / above '
+         'total, duration 0, requests from inside hooks); non-trivial = at least one order started; distinct by text',
+    assumptions=['needed capacities >= 0', 'only the maintainer\'s own events carry its asset id'],
+    partial=['duration_exact / hooks_once: the event glue (World.startWork/finishWork) is mirrored and checked by '
+             'correspondence and monitor, not stated as a theorem'],
+)
+PROPS['C18'] = dict(
+    modules=['SimProc.Props.C18'], prop_files=['SimProc/Props/C18.lean'],
+    families=[('sched', 300, 6000)],
+    tags=tags(*BASE, 's', 'rec'),
+    monitors=M.MONITORS['C18'],
+    nontrivial=has(('res act',)),
+    stats=op_stats, divergence_is_witness=True,
+    divergence_text='C18 fixes every transition time, state and action call; the model is proved to meet it',
+    rule='family sched: random timetables (repeated states, zero durations), cyclical / not / defaulted, '
+         'register/unregister before and during the run; non-trivial = at least one action was invoked',
+    assumptions=['actions do not (un)register objects on the scheduler they run under', 'exact time arithmetic'],
+)
+PROPS['C19'] = dict(
+    modules=['SimProc.Props.C19'], prop_files=['SimProc/Props/C19.lean'],
+    families=[('sensor', 300, 6000)],
+    tags=tags(*BASE, 'n'),
+    monitors=M.MONITORS['C19'],
+    nontrivial=has(('res sense',)),
+    stats=op_stats, divergence_is_witness=True,
+    divergence_text='C19 fixes measurement times, stored series and callback calls; the model is proved to meet it',
+    rule='family sensor: periodic sensors (intervals, capacities, 1-3 probes over changing variables, callbacks), cms '
+         'with duplicate add_sensor; output-part sensors are exercised by the floor family; non-trivial = a callback ran',
+    assumptions=['exact time arithmetic', 'integer data capacity'],
+)
